@@ -86,6 +86,19 @@ CLAIMS = {
    note='Trusted: HashMap entry semantics; q-homogeneity of generators. Thin claim: necessary conditions only.'),
 }
 
+# sentences appended after later rounds (kept here so that the table above stays readable)
+E33 = ' Also (E33): every boolean scan of this area (loop with a witness return / chain ending in any, all, find, position) examines every element - no early exit with the default answer, no truncating adapter.'
+EXTRA = {
+ 'C01': E33, 'C05': E33, 'C06': E33 + ' Path::is_adj, on which the colouring of the Seifert circles rests, is one of them.', 'C18': E33, 'C13': E33, 'C12': E33, 'C16': E33,
+ 'C08': E33 + ' A pivot candidate is a unit for every PivotCondition (decision table of is_cand folded over is_pm_one / is_unit / weight).',
+ 'C11': ' Also: a pivot candidate is a unit for every PivotCondition (One: exactly +-1, AnyUnit: exactly the units, Weight: units within the bound).',
+ 'C10': ' Also (E26.V3): wherever a row is normalised, it is normalised on every returning path on which it has a pivot (no shortcut that concerns another row skips it).',
+ 'C07': ' Also: the invariant factors the torsion is read from form a divisibility chain - exit condition of the normalising scan of the SNF (E21, shared with C09).',
+ 'C03': ' Also: the field Q the ranks are compared over keeps every Ratio in lowest terms (E1 R0-R5, shared with C14).',
+}
+for _k, _v in EXTRA.items():
+    CLAIMS[_k]['text'] += _v
+
 NA = {
 }
 PENDING = 'not claimed at this commit: its static check (DESIGN.md §4) is still being built'
